@@ -178,6 +178,21 @@ def Spec.expect (s : Spec) (x : Rat) : Option (Rat × Rat) :=
       let tol := if w = 0 then 0 else s.ymax * (enum / w + p49 * (absR (r - s.p.center) / w + 1))
       some (y, tol)
 
+/-- SIGMOID (C.11.2.1.3.1, `y = ymax / (1 + exp(-4 (x - c) / w))`) is not rational: the oracle
+evaluates the standard's formula in binary64 and accepts a relative deviation of 1e-9 of `ymax`
+(far above any rounding effect, far below any change of the formula) -/
+def Spec.sigmoidBad (s : Spec) (t : OutT) (x : Int) (o : IVal) : Bool :=
+  let useRescale := s.kind == .rescaleOnly || s.kind == .rescaleWindow || s.kind == .rescaleWindow8
+  let xf := Float.ofInt x
+  let r := if useRescale then s.p.slopeF * xf + s.p.interF else xf
+  let w := if s.p.widthF < 1.0 then 1.0 else s.p.widthF
+  let ymax := Float.ofInt s.ymax.num
+  let y := ymax / (1.0 + Float.exp (-4.0 * (r - s.p.centerF) / w))
+  let tol := 1e-9 * ymax + (if t == .f32 then 1e-6 * ymax else 0.0)
+  match o with
+  | .int n => !((Float.ofInt n - y).abs < 1.0 + tol)
+  | .flt f _ => !((f - y).abs ≤ tol)
+
 /-- is the implementation's output compatible with the exact value `y` (rounding bound `tol`)? -/
 def compatible (t : OutT) (out : IVal) (y tol : Rat) : Bool :=
   match out with
@@ -247,7 +262,9 @@ def walk (spec : Spec) (cfg : Cfg Float) (t : OutT) (slack : Nat) (inputOf : Nat
       | some (y, tol) =>
         if compatible t o y tol then none
         else some s!"PROP-FAIL class=formula-{if spec.kind == .rescaleOnly then "rescale" else (if spec.fn == .linear then "linear" else "linear-exact")} stored value {x}: impl={o.show} exact={y.floor}+{(y - y.floor)} tol={tol.num}/{tol.den}"
-      | none => none
+      | none =>
+        if spec.sigmoidBad t x o then some s!"PROP-FAIL class=formula-sigmoid stored value {x}: impl={o.show} is not ymax/(1+exp(-4(x-c)/w))"
+        else none
     match bad with
     | some m => some m
     | none =>
@@ -379,7 +396,9 @@ def handleVec (toks : List String) : String :=
             | some (y, tol) =>
               if compatible t o y tol then none
               else some s!"PROP-FAIL class={if alloc = 8 ∧ stored < 8 then "bits-stored-ignored-8bit" else "sample-value"} sample {s} (stored value {x}, bits stored {stored}, {if signed then "signed" else "unsigned"}): impl={o.show} exact={y.floor}+{y - y.floor}"
-            | none => none
+            | none =>
+              if spec.sigmoidBad t x o then some s!"PROP-FAIL class={if alloc = 8 ∧ stored < 8 then "bits-stored-ignored-8bit" else "sample-value"}-sigmoid sample {s} (stored value {x}): impl={o.show} is not ymax/(1+exp(-4(x-c)/w))"
+              else none
         match oracleBad with
         | some m => m
         | none =>
